@@ -26,6 +26,8 @@ func init() {
 		Unbounded: []rt.ApaCheck{
 			{Module: "BoundsInd", Inv: "Agree", Expect: "NoError", What: "for ALL integers: the transcribed NormalizeBounds + genBoundary accept x iff x satisfies every stated bound"},
 			{Module: "BoundsInd", Inv: "AgreeTie", Expect: "Error", What: "the comparison before fix ee8f4ce (> / < instead of >= / <=) disagrees on a tie: the deviation switch is necessary"},
+			{Module: "BoundsFracInd", Inv: "AgreeRound", Expect: "NoError", What: "for ALL quarter-valued (fractional) constants on an integer field and all integers x: rounding the bound into the range and comparing inclusively accepts x iff x satisfies every stated bound"},
+			{Module: "BoundsFracInd", Inv: "AgreeTrunc", Expect: "Error", What: "int64(bound) as before fix a9f0e7c (truncation toward zero, exclusiveness kept) disagrees: the deviation switch is necessary"},
 		},
 		Rule: "units = every combination of minimum/maximum (absent or one of 4 constants), exclusiveMinimum/exclusiveMaximum (absent, true, false or one of 4 constants), multipleOf (absent or 3 values), integer|number, 6 positions; documents = every half step from below the smallest to above the largest constant, absent, null. distinct_nontrivial = distinct (unit, document) pairs with a definite reference verdict",
 		Select: func(units []*rt.Unit, tier string, rng *rand.Rand) []*rt.Unit {
